@@ -94,6 +94,14 @@ check("C15", "TLC enumeration of Defects injections with documented levels + rep
       "DESIGN.md §4.8, §6 C15")
 
 
+check("C13", "TLC check of Paths laws + enumeration of (base, rel) pairs and multi-file groups, replayed through resolver, dependency queries and rendering",
+      "TLC checks the laws of the reference resolver spec/Paths.tla on every (base, rel) pair over {a,b,.,..,''} and "
+      "emits the resolved path; replayed against path::resolve (hook), against direct_dependencies / script_dependencies "
+      "of templates holding an import, include and wxs-src for every pair, and by rendering family F8 (reference "
+      "spellings, local vs imported definitions, nested includes) in every insertion order of the files.",
+      "DESIGN.md §4.6, §6 C13")
+
+
 def main():
     props = [json.loads(l) for l in open(os.path.join(HERE, "properties.jsonl"))]
     ids = [p["id"] for p in props]
